@@ -88,10 +88,16 @@ class Tracer(object):
     a.events.append(('n', vid))
     return True
 
-  def it(self, a, vid, iterable):
-    it = iter(iterable)
+  def it(self, a, vid, thunk):
+    """Wraps a for-loop iterable: the header node is visited once per __next__ call (n+1 visits);
+    the iterable expression itself is evaluated during the first visit."""
+    self.p(a, vid)
+    it = iter(thunk())
+    first = True
     while True:
-      self.p(a, vid)
+      if not first:
+        self.p(a, vid)
+      first = False
       try:
         v = next(it)
       except StopIteration:
@@ -100,6 +106,11 @@ class Tracer(object):
 
   def r(self, a, vid, name, value):
     a.events.append(('r', vid, name))
+    return value
+
+  def ra(self, a, vid, name, value):
+    # implicit read of an augmented-assignment target (no Load-context Name node exists for it)
+    a.events.append(('ra', vid, name))
     return value
 
   def w(self, a, vid, names):
@@ -193,16 +204,18 @@ class Instrumenter(ast.NodeTransformer):
     if self.fn_depth == 0:
       return s   # module level: untouched
     if isinstance(s, ast.If):
+      tvid = getattr(s.test, '_vid', None)
       s.test = self.expr(s.test)
-      if self.is_node(s.test):
-        s.test = self.probed_expr(s.test._vid, s.test)
+      if tvid in self.cfg_vids:
+        s.test = self.probed_expr(tvid, s.test)
       s.body = self.block(s.body)
       s.orelse = self.block(s.orelse)
       return s
     if isinstance(s, ast.While):
+      tvid = getattr(s.test, '_vid', None)
       s.test = self.expr(s.test)
-      if self.is_node(s.test):
-        s.test = self.probed_expr(s.test._vid, s.test)
+      if tvid in self.cfg_vids:
+        s.test = self.probed_expr(tvid, s.test)
       s.body = self.block(s.body)
       s.orelse = self.block(s.orelse)
       return s
@@ -210,7 +223,8 @@ class Instrumenter(ast.NodeTransformer):
       ivid = s.iter._vid
       s.iter = self.expr(s.iter)
       if ivid in self.cfg_vids:
-        s.iter = _call('it', _act(), _const(ivid), s.iter)
+        s.iter = _call('it', _act(), _const(ivid), ast.Lambda(
+            args=ast.arguments(posonlyargs=[], args=[], kwonlyargs=[], kw_defaults=[], defaults=[]), body=s.iter))
       names = self.bound_names(s.target)
       s.body = ([self.wr_stmt(ivid, names)] if self.writes else []) + self.block(s.body)
       s.orelse = self.block(s.orelse)
@@ -265,7 +279,7 @@ class Instrumenter(ast.NodeTransformer):
         post.append(self.wr_stmt(vid, names))
     if isinstance(s, ast.AugAssign) and self.reads and isinstance(s.target, ast.Name):
       # the implicit read of the target
-      pre.append(ast.Expr(value=_call('r', _act(), _const(s.target._vid), _const(s.target.id), ast.Name(id=s.target.id, ctx=ast.Load()))))
+      pre.append(ast.Expr(value=_call('ra', _act(), _const(s.target._vid), _const(s.target.id), ast.Name(id=s.target.id, ctx=ast.Load()))))
     s = self.expr_fields(s)
     return pre + [s] + post
 
@@ -366,5 +380,5 @@ def instrument(tree, cfg_vids, reads=False, writes=False):
 def runtime_namespace(tracer):
   return {
       PFX + 'enter': tracer.enter, PFX + 'leave': tracer.leave, PFX + 'p': tracer.p, PFX + 'it': tracer.it,
-      PFX + 'r': tracer.r, PFX + 'w': tracer.w, PFX + 'd': tracer.d, PFX + 'tryin': tracer.tryin, PFX + 'fin': tracer.fin,
+      PFX + 'r': tracer.r, PFX + 'ra': tracer.ra, PFX + 'w': tracer.w, PFX + 'd': tracer.d, PFX + 'tryin': tracer.tryin, PFX + 'fin': tracer.fin,
   }
